@@ -1,4 +1,5 @@
 import RisorModel.C12.Model
+import RisorModel.C12.Virtual
 import RisorModel.Generated.C12
 /-!
 C12 ties: what the extractor read from `/repo` on this run equals the reviewed tables and facts
@@ -18,5 +19,10 @@ theorem inventory_tie : Risor.Generated.C12.inventory = reviewedInventory := by 
     `Builtins()` tables) is implemented by a Go function that the operation table exercises -/
 theorem exports_covered :
     (Risor.Generated.C12.exports.all fun e => allOps.any fun o => o.goFn == e.2) = true := by decide
+
+/-- the functions of os/virtual.go and of the files a `VirtualOS` hands out (nil_file.go, buffer_file.go,
+    in_memory_file.go) use exactly the reviewed members of OS-touching Go packages: the constant
+    `os.PathSeparator` in two methods and nothing else — in particular `VirtualOS.Exit` uses none -/
+theorem virtual_sinks_tie : Risor.Generated.C12.virtualSinks = V.reviewedVSinks := by decide
 
 end Risor.C12
